@@ -41,3 +41,5 @@ PROP = dict(
     assumptions=["file shorter than 2^48 bytes, fewer than 2^32 pairs and buckets", "metadata within indexmeta limits (255 pairs, 255-byte keys/values)",
                  "values passed to Insert have the declared value size; legacy 8-byte format: values fit intWidth(FileSize) bytes (documented precondition)"],
 )
+PROP["technique"] += " + (Bucket).Lookup itself (hash, search with b.loadEntry as getter, entry loader over the section reader) translated on every run and proved equal to the model's search over the model's entry loader for every file, complete or cut"
+PROP["level_text"] += "; the whole in-bucket lookup (Bucket).Lookup is translated from the Go source on every run, the function passed as the search's getter is recorded by the translator (b.loadEntry) and the getter oracle interpreted as the translated loadEntry over the bucket's section reader: for every index file (complete or cut anywhere), bucket position, entry count, value size, hash domain and key it returns CI.search_get over CI.load_entry - the value, ErrNotFound or the read error (C04_translated_bucket_Lookup_is_the_models_search)"
